@@ -13,14 +13,14 @@ type RangeQuerySettings struct {
 }
 
 func (s RangeQuerySettings) validate() error {
-	if s.Max != "" {
-		dur, err := parseDuration(s.Max)
-		if err != nil {
-			return err
-		}
-		if dur == 0 {
-			return errors.New("range_query max value cannot be zero")
-		}
+	// max is always parsed when the check is created, an empty value would build a check with no limit
+	// and no Prometheus server to ask for one.
+	dur, err := parseDuration(s.Max)
+	if err != nil {
+		return err
+	}
+	if dur == 0 {
+		return errors.New("range_query max value cannot be zero")
 	}
 
 	if s.Severity != "" {
